@@ -69,6 +69,7 @@ func Reset() {
 	seq = map[string]int{}
 	Failures = nil
 	digestLen = 0
+	exprMemo = map[string][]byte{}
 }
 
 func nextName(name string) string {
@@ -157,8 +158,28 @@ func evalDigestExpr(e string) []byte {
 	return b
 }
 
+var exprMemo = map[string][]byte{}
+
 func parseExpr(e string) ([]byte, string) {
 	switch {
+	case strings.HasPrefix(e, "@"):
+		i := 0
+		for i < len(e) && e[i] != ',' && e[i] != ')' {
+			i++
+		}
+		name := e[1:i]
+		if b, ok := exprMemo[name]; ok {
+			return b, e[i:]
+		}
+		var b []byte
+		if iv, ok := values[name]; ok {
+			b, _ = parseExpr(iv.Value)
+		} else {
+			s := sha256.Sum256([]byte("fresh:" + name))
+			b = s[:digestLen]
+		}
+		exprMemo[name] = b
+		return b, e[i:]
 	case strings.HasPrefix(e, "H("):
 		rest := e[2:]
 		var parts [][]byte
@@ -208,6 +229,46 @@ func parseExpr(e string) ([]byte, string) {
 	}
 	s := sha256.Sum256([]byte("fresh:" + e[:i]))
 	return s[:digestLen], e[i:]
+}
+
+// FreeDigestMap is an adversary-controlled map of digests: symbolically, every
+// key that is looked up is present with a free digest value and len() is size.
+// Natively it holds exactly the entries the counterexample recorded (padded
+// with unrelated keys up to size).
+func FreeDigestMap(name string, size int) map[string]hashing.Digest {
+	load()
+	m := map[string]hashing.Digest{}
+	pre := name + "["
+	for n, iv := range values {
+		if strings.HasPrefix(n, pre) && strings.HasSuffix(n, "]") && iv.Kind == "digest" {
+			m[n[len(pre):len(n)-1]] = evalDigestExpr(iv.Value)
+		}
+	}
+	for i := 0; len(m) < size; i++ {
+		m[fmt.Sprintf("zz-pad-%d", i)] = make([]byte, digestLen)
+	}
+	return m
+}
+
+// FreeDigestMap10 is FreeDigestMap for maps keyed by 10-byte positions.
+func FreeDigestMap10(name string, size int) map[[10]byte]hashing.Digest {
+	load()
+	m := map[[10]byte]hashing.Digest{}
+	pre := name + "["
+	for n, iv := range values {
+		if strings.HasPrefix(n, pre) && strings.HasSuffix(n, "]") && iv.Kind == "digest" {
+			kb, _ := hex.DecodeString(n[len(pre) : len(n)-1])
+			var k [10]byte
+			copy(k[:], kb)
+			m[k] = evalDigestExpr(iv.Value)
+		}
+	}
+	for i := 0; len(m) < size; i++ {
+		var k [10]byte
+		k[0], k[1], k[9] = 0xff, byte(i), 0xff
+		m[k] = make([]byte, digestLen)
+	}
+	return m
 }
 
 type assumeFailed struct{}
